@@ -25,6 +25,31 @@ Proof.
   destruct (nth_error l (Z.to_nat i)) eqn:N; [eauto|]. apply nth_error_None in N. lia.
 Qed.
 
+Lemma in_zseq : forall n z, 0 <= z < Z.of_nat n -> In z (zseq n).
+Proof. intros n z H. unfold zseq. apply in_map_iff. exists (Z.to_nat z). split; [lia|]. apply in_seq. lia. Qed.
+
+(* (i) lifted from the boolean check by forallb_forall *)
+Theorem index_safe : forall T, index_ok T = true ->
+  (forall s t, 0 <= s < zlen (tPact T) -> In t (all_tokens T) ->
+     is_ok (simple_state T s) = true /\ is_ok (idx 13 (tDef T) s) = true /\ is_ok (errshift_of T s) = true /\
+     is_ok (shift_of T s t) = true /\
+     (idx 13 (tDef T) s = Ok (-2) -> is_ok (exca_lookup T s t) = true)) /\
+  (forall n base, 0 <= n < zlen (tR2 T) -> 0 <= base < zlen (tPact T) ->
+     exists nt r2, idx 32 (tR1 T) n = Ok nt /\ idx 30 (tR2 T) n = Ok r2 /\ 0 <= r2 /\
+                   is_ok (idx 33 (tPgo T) nt) = true /\ is_ok (goto_of T base nt) = true).
+Proof.
+  intros T H. unfold index_ok in H. apply andb_prop in H as [Hs Hr].
+  rewrite forallb_forall in Hs. rewrite forallb_forall in Hr. split.
+  - intros s t Hsr Ht. specialize (Hs s (in_zseq _ _ Hsr)). unfold state_index_ok in Hs.
+    apply andb_prop in Hs as [Hs Hall]. apply andb_prop in Hs as [Hs H3]. apply andb_prop in Hs as [H1 H2].
+    rewrite forallb_forall in Hall. specialize (Hall t Ht). apply andb_prop in Hall as [H4 H5].
+    repeat split; auto. intro Hd. rewrite Hd in H5. exact H5.
+  - intros n base Hn Hb. specialize (Hr n (in_zseq _ _ Hn)). unfold rule_index_ok in Hr.
+    destruct (idx 32 (tR1 T) n) as [nt|]; [|discriminate]. destruct (idx 30 (tR2 T) n) as [r2|]; [|discriminate].
+    apply andb_prop in Hr as [Hr Hg]. apply andb_prop in Hr as [H0 Hp]. rewrite forallb_forall in Hg.
+    exists nt, r2. repeat split; auto; [lia|]. apply Hg. apply in_zseq. exact Hb.
+Qed.
+
 Section Generic.
 Variable T : tables.
 Variable E : list (list Z).
@@ -185,13 +210,14 @@ Qed.
 (* ---- the invariant ---- *)
 Definition Inv (c : cfg) : Prop :=
   chain (stk c) /\ In (token c) (all_tokens T) /\ 0 <= errflag c <= 3.
+Ltac inv_intro := unfold Inv; cbn [stk token errflag char inp nlex errat]; split; [|split].
 
 Lemma ensure_la_ok : forall c, Inv c ->
   exists c1, ensure_la T c = Ok c1 /\ stk c1 = stk c /\ errflag c1 = errflag c /\ Inv c1.
 Proof.
   intros c [Hc [Ht He]]. unfold ensure_la. destruct (char c <? 0).
   - destruct (lexcall (inp c)) as [ch r]. destruct (yylex1_ok ch) as [t [Hy Hin]]. rewrite Hy. cbn [bind].
-    eexists. split; [reflexivity|]. unfold Inv. cbn. repeat split; auto; lia.
+    eexists. split; [reflexivity|]. cbn [stk errflag]. split; [reflexivity|split; [reflexivity|]]. inv_intro; auto; lia.
   - exists c. unfold Inv. repeat split; auto; lia.
 Qed.
 
@@ -244,8 +270,8 @@ Proof.
       * apply Z.ltb_lt in Hidx. lia.
       * apply andb_prop in Hidx as [Hi1 Hi2]. apply Z.leb_le in Hi1. apply Z.leb_le in Hi2.
         apply orb_prop in Xb as [Xb|Xb]; [apply Z.ltb_lt in Xb; lia|]. apply Z.gtb_lt in Xb. lia.
-    + unfold Inv; cbn. repeat split; auto; lia.
-  - unfold Inv; cbn. repeat split; auto; lia.
+    + inv_intro; auto; lia.
+  - inv_intro; auto; lia.
 Qed.
 
 Lemma on_error_ok : forall c, Inv c ->
@@ -265,13 +291,13 @@ Proof.
            end) with Cont c' => Inv c' | Crash _ => False | _ => True end).
   { intros c0 H1 H2. rewrite H1. pose proof (recover_ok _ Hc) as Hr.
     destruct (recover_stk T (stk c)) as [[s'|]|]; [|exact I|exact Hr].
-    unfold Inv; cbn. repeat split; auto; try lia. rewrite H2. exact Ht. }
+    inv_intro; auto; try lia. rewrite H2. exact Ht. }
   destruct (errflag c =? 0) eqn:E0.
   - apply Hrec; reflexivity.
   - destruct ((errflag c =? 1) || (errflag c =? 2)) eqn:E12.
     + apply Hrec; reflexivity.
     + destruct (errflag c =? 3) eqn:E3.
-      * destruct (token c =? tEofCode T); [exact I|]. unfold Inv; cbn. repeat split; auto; try lia.
+      * destruct (token c =? tEofCode T); [exact I|]. inv_intro; auto; try lia.
         apply in_all_tokens. left. reflexivity.
       * apply Z.eqb_neq in E0. apply Z.eqb_neq in E3. apply orb_false_elim in E12 as [E1 E2].
         apply Z.eqb_neq in E1. apply Z.eqb_neq in E2. lia.
@@ -320,18 +346,16 @@ Proof.
     pose proof HI1 as [Hc1 [Ht1 He1]].
     rewrite forallb_forall in Hshift. specialize (Hshift (token c1) Ht1).
     destruct (shift_of T s (token c1)) as [[a|]|]; [| |discriminate].
-    + unfold Inv; cbn. repeat split.
-      * rewrite Hstk, Hs. exact Hshift.
-      * rewrite Hstk, Hs. rewrite Hs in Hc. exact Hc.
+    + inv_intro.
+      * rewrite Hstk, Hs. split; [exact Hshift|exact Hc].
       * apply in_all_tokens. left. reflexivity.
-      * destruct (errflag c1 >? 0) eqn:G; [apply Z.gtb_lt in G|]; lia.
       * destruct (errflag c1 >? 0) eqn:G; lia.
     + eapply dflt_ok; eauto. rewrite Hstk. exact Hs.
 Qed.
 
 Lemma init_inv : forall i, Inv (init i).
 Proof.
-  intro i. unfold Inv, init. unfold Inv; cbn. repeat split; try lia. apply in_all_tokens. left. reflexivity.
+  intro i. unfold init. inv_intro; [reflexivity| |lia]. apply in_all_tokens. left. reflexivity.
 Qed.
 
 Lemma run_inv : forall fuel c, Inv c -> forall site, run T fuel c <> OPanic site.
